@@ -72,6 +72,11 @@ class SimRandom(_stdrandom.Random):
             got += 16
         return out >> (got - k)
 
+    def _randbelow(self, n):
+        # (the stock implementation rejects and redraws, which need not terminate on a cyclic
+        # decision list; one decision per draw, reduced modulo n)
+        return self._next() % n if n > 0 else 0
+
     def Random(self, *args):
         return self
 
@@ -199,6 +204,7 @@ class World(BaseWorld):
         if fn is None:
             raise HarnessError("unknown op %r" % op["op"])
         W.MON.fired.clear()
+        self.lib_raised = False
         out = fn(op)
         self.monitor_after_op(op)
         self.note("op_" + op["op"])
@@ -405,6 +411,7 @@ class World(BaseWorld):
         try:
             d = eager_parse(*words, target=target)
         except NotImplementedError:
+            self.lib_raised = True
             self.note("parse_refused")
             return "refused"
         except Exception as err:
